@@ -217,6 +217,12 @@ def check_case(p, ctx):
         ctx.count("through-read_myosin(file)")
     else:
         got = call(fm.get_intensities, edges, img, p["integrate"], p["normalize"], p["layers"], **kw)
+    if p["iseed"] % 3 == 0 and not p.get("via_file"):
+        got_again = call(fm.get_intensities, edges, img, p["integrate"], p["normalize"], p["layers"], **kw)
+        if sorted(got_again) != sorted(got) or any(float(got_again[k_]) != float(got[k_]) for k_ in got):
+            return ctx.violation("second-call-differs", p, observed=[float(got_again[k_]) for k_ in sorted(got_again)][:5],
+                                 expected=[float(got[k_]) for k_ in sorted(got)][:5])
+        ctx.count("quantified-twice")
     if sorted(got) != list(range(len(edges))):
         return ctx.violation("result-keys", p, observed=sorted(got)[:10], expected=f"0..{len(edges) - 1}")
     raw = [ref_intensity(arr, be, p["layers"], p["integrate"], rescale, offset) for be in edges]
